@@ -356,10 +356,12 @@ pub fn run(run: &mut Run) {
     run.assumptions.push("the standard error referred to is the crate's documented Arithmetic::sample_sem in the transformed space (it divides by sqrt(n-1)); it is taken from Arithmetic, not recomputed".into());
     run.assumptions.push("harmonic intervals whose reciprocal-space bound is <= 0 are outside the stated domain: counted as 'straddle', not checked".into());
     run.assumptions.push("after a failing extend the state may be unchanged or hold the valid prefix (extend is documented as a loop of append)".into());
+    crate::props::history::add(run, "C05", &[crate::props::history::GEO, crate::props::history::HARM, crate::props::history::ARITH], 3_000, 200_000);
 }
 
 pub fn replay(sub: &str, v: &Value, obs: &mut Obs) -> Option<PResult> {
     Some(match sub {
+        "history" => crate::props::history::case(&de(v), obs),
         "positive" => positive_case(&de(v), obs),
         "reject" => reject_case(&de(v), obs),
         "accept" => accept_case(&de(v), obs),
